@@ -147,6 +147,14 @@ claim(
     "DESIGN.md §3 C15",
 )
 
+claim(
+    "C09",
+    "Generated programs (equation set x generator option vector) + differential execution: the generated C is compiled (gcc -Wall -Werror), loaded with casadi.external and compared with the symbolic Function on generated inputs incl. harvested branch constants +- 1 ulp; symbol-set and layout checks for every option vector",
+    "Exploration over programs and inputs: six shipped equation sets through their own entry points (__main__ blocks via runpy, generate_code functions), option vectors = defaults, all single and pairwise flips (all 2^k on the two smallest sets in the thorough tier); per function n_in/n_out/names/sparsities and NaN-aware value agreement on generated inputs; exported symbol set parsed from the C text must equal the Function names of the set and the pinned list.",
+    "Differential execution only (no structural translation validation of the C text). The CasADi VM is the reference. 'Compiles cleanly' is asserted for the default option vector of each entry point; mex/cpp/main variants are generated and symbol-checked but not compiled.",
+    "DESIGN.md §3 C09",
+)
+
 NOT_YET = "check not built yet in this round (work in progress; see DESIGN.md)"
 
 
